@@ -24,3 +24,6 @@ def run(ctx, R):
     life.rule_order(ctx, R, F)
     life.rule_valueinit(ctx, R, F)
     life.rule_null_pair(ctx, R, F)
+    life.rule_ctor(ctx, R, 'K0', ('randomx::JitCompilerX86',))
+    life.rule_ctor(ctx, R, 'K2', ('randomx::JitCompilerA64',))
+    life.rule_ctor(ctx, R, 'K3', ('randomx::JitCompilerRV64',))
